@@ -93,5 +93,10 @@ func GenGenericModule(r *core.Rng, size int) *Stmt {
 			S("rpc", "r-both", &Stmt{Kw: "input", Block: true, Kids: []*Stmt{S("leaf", "x", S("type", "string"))}}, &Stmt{Kw: "output", Block: true, Kids: []*Stmt{S("leaf", "y", S("type", "string"))}}),
 			S("notification", "n-bare"))
 	}
+	// deviations with every deviate kind: the keyword of the statement is "deviate", whatever its argument
+	if r.Chance(1, 3) {
+		m.Add(S("deviation", "/gm:a/gm:b", S("deviate", "add", S("units", core.Pick(r, argPool))), S("deviate", "delete", S("units", "v")), S("deviate", "replace", S("units", "w"))),
+			S("deviation", "/gm:c", S("deviate", "not-supported")))
+	}
 	return m
 }
